@@ -28,6 +28,24 @@ def fmt1(c):
     return '%d.%d' % (c // 100, (c % 100) // 10)
 
 
+def _mss2(c):
+    m, r = divmod(c, 6000)
+    return '%d:%02d.%02d' % (m, r // 100, r % 100) if m else fmt2(c)
+
+
+def _mss1(c):
+    m, r = divmod(c, 6000)
+    return '%d:%02d.%d' % (m, r // 100, (r % 100) // 10) if m else fmt1(c)
+
+
+def _dot2(c):
+    return _mss2(c).replace(':', '.')       # Norwegian m.ss.hh
+
+
+def _dot1(c):
+    return _mss1(c).replace(':', '.')       # Norwegian m.ss.t (hand-timed)
+
+
 # ---------------------------------------------------------------------------------------------
 # one generic examiner: a run of consecutive marks of one scoring context
 
@@ -51,7 +69,8 @@ def context(case):
         g, e, age, form = case['gender'], case['event'], case['age'], case.get('form', 'float')
         params = junior.tyrving_tables()[g][e]
         timed = params[0] == 'race'
-        conv = {'float': centi_float, 'text2': fmt2, 'text1': fmt1}[form]
+        conv = {'float': centi_float, 'text2': fmt2, 'text1': fmt1, 'mss2': _mss2, 'mss1': _mss1, 'dot2': _dot2, 'dot1': _dot1,
+                'comma1': lambda c: fmt1(c).replace('.', ',')}[form]
         sp = case.get('spelling', e)        # the event as the caller spells it (normalises to the key e)
         return (lambda c: call(athlib.tyrving_score, g, age, sp, conv(c))), timed, 0, None
     if s == 'qkids':
@@ -134,10 +153,16 @@ def examine_hand(case):
     g, e, age = case['gender'], case['event'], case['age']
     out = []
     for c in range(case['lo'], case['hi'] + 1, 10):
-        a = call(athlib.tyrving_score, g, age, e, fmt1(c))
         b = call(athlib.tyrving_score, g, age, e, fmt2(c))
-        if a[0] != 'ret' or b[0] != 'ret' or a[1] > b[1]:
-            out.append(V('hand-timed-not-better', ['tyrving', 'hand-timed-scores-more'], dict(case, lo=c, hi=c), [a, b]))
+        # every hand-timed spelling of the figure: s.t, s,t and from one minute up m:ss.t and the Norwegian m.ss.t
+        hand = [('s.t', fmt1(c)), ('s,t', fmt1(c).replace('.', ','))]
+        if c >= 6000:
+            hand += [('m:ss.t', _mss1(c)), ('m.ss.t', _dot1(c)), ('m:ss,t', _mss1(c).replace('.', ','))]
+        for name, text in hand:
+            a = call(athlib.tyrving_score, g, age, e, text)
+            if a[0] != 'ret' or b[0] != 'ret' or a[1] > b[1]:
+                out.append(V('hand-timed-not-better', ['tyrving', 'hand-timed-scores-more'] + ([name] if name != 's.t' else []),
+                             dict(case, lo=c, hi=c), {'hand_text': text, 'hand': a, 'electronic_text': fmt2(c), 'electronic': b}))
     return out
 
 
@@ -273,6 +298,15 @@ def shard(ctx, payload):
             if kind == 'race':
                 a10, b10 = (lo // 10 + 1) * 10, (hi // 10) * 10
                 ctx.violations(examine(dict(base, form='text1', step=10, lo=a10, hi=b10), ctx))
+                if b10 >= 6000:
+                    # from one minute up: the m:ss and Norwegian dotted spellings, electronic and hand-timed
+                    for form in ('mss1', 'dot1', 'comma1'):
+                        ctx.violations(examine(dict(base, form=form, step=10, lo=max(a10, 5900), hi=b10), ctx))
+                    for form in ('mss2', 'dot2'):
+                        w = min(b10 - max(a10, 5900), 1500)
+                        st = max(a10, 5900) + rng.randrange(max(1, b10 - max(a10, 5900) - w + 1))
+                        ctx.violations(examine(dict(base, form=form, lo=st, hi=st + w), ctx))
+                    ctx.label('tyrving-minute-forms')
                 hc = {'kind': 'hand', 'gender': g, 'event': ev, 'age': age, 'lo': a10, 'hi': b10}
                 ctx.count((b10 - a10) // 10 + 1)
                 ctx.violations(examine_hand(hc))
